@@ -50,7 +50,7 @@ Theorem C18_wrap_keeps_cause : forall nid e, kind_of e <> KProtocol ->
   type_id r = Some thrift_UNKNOWN_PROTOCOL_EXCEPTION /\
   msg_of r = Some (text e) /\
   unwrap r = Some e /\
-  is r e = true /\
+  (comparable e = true -> is r e = true) /\
   (forall x, is e x = true -> is r x = true).
 Proof. exact wrap_keeps_cause. Qed.
 
@@ -69,9 +69,15 @@ Theorem C18_is_chain : forall e x,
   is e x = existsb (fun y => link_match y x) (chain e).
 Proof. exact is_chain. Qed.
 
+(* [comparable c]: Go's errors.Is applies [==] only to targets of a comparable dynamic type; a cause of a
+   non-comparable type (a slice-typed error: [Opaque]) is still returned by errors.Unwrap, but nothing
+   — in the standard library itself — matches it with errors.Is, and no comparison may panic *)
 Theorem C18_cause_chain_reachable : forall e c x,
-  In c (chain e) -> is e c = true /\ (is c x = true -> is e x = true).
+  In c (chain e) -> (comparable c = true -> is e c = true) /\ (is c x = true -> is e x = true).
 Proof. exact cause_chain_reachable. Qed.
+
+Theorem C18_uncomparable_target_never_matches : forall e i s, is e (Opaque i s) = false.
+Proof. exact is_opaque_target. Qed.
 
 (* non-vacuity *)
 Example C18_nonvacuous_foreign_corner :
